@@ -22,6 +22,9 @@ def gen_lines(rng, impl, tier):
         suite = ([int(c) for c in ws[4].split(',') if int(c) in known and int(c) not in (0x5600, 0x00ff)] or [0xc02f])[0]
         comp = ([int(c) for c in ws[5].split(',') if int(c) in tlsgen.codes_of('TlsCompressionMethodFactory')] or [0])[0]
         lines.append('shenc %s %s %s %d %d %s' % (ws[1], ws[2], ws[3], suite, comp, exts))
+        # the library's hello retry request (ServerHello layout, handshake type 6), every compression method code of the table
+        hrr_random = 'cf21ad74e59a6111be1d8c021e65b891c2a211167abb8c5e079e09e2c8a8339c' if rng.random() < 0.5 else ws[2]
+        lines.append('hrrenc %s %s %s %d %d %s' % (ws[1], hrr_random, ws[3], suite, rng.choice(tlsgen.codes_of('TlsCompressionMethodFactory')), exts))
         lines.append('certenc %s' % (','.join(framegen.rnd_bytes(rng, rng.choice([1, 5, 300])).hex() for _ in range(rng.choice([1, 2, 3]))) or '-'))
         cts = [v for _, v in dict(gen_tables.local_int_enums())['TlsContentType']]
         lines.append('recenc %d %d %s' % (rng.choice(cts), rng.choice(tlsgen.codes_of('TlsVersionFactory')), framegen.rnd_payload(rng).hex() or '-'))
